@@ -173,9 +173,12 @@ def replay_pair_table(target, nr, npots, derivs, labels, w, route="class", h=Non
       spec.append((a, b, f, d))
     out = io.StringIO()
     cls = dict(LAMMPS=pt.LAMMPS_PairTabulation, DL_POLY=pt.DLPoly_PairTabulation, GULP=pt.GULP_PairTabulation)[target]
+    cmp = dict(LAMMPS=compare_lammps, DL_POLY=compare_dlpoly, GULP=compare_gulp)[target]
     try:
+      tab = None
       if route == "class":
-        cls(pots, cutoff, nr).write(out)
+        tab = cls(pots, cutoff, nr)
+        tab.write(out)
       else:
         ap.writePotentials(target, pots, cutoff, nr, out)
     except Exception as e:
@@ -183,12 +186,15 @@ def replay_pair_table(target, nr, npots, derivs, labels, w, route="class", h=Non
       text = ""
     else:
       text = out.getvalue()
-      if target == "LAMMPS":
-        bad = compare_lammps(text, spec, cutoff, nr)
-      elif target == "DL_POLY":
-        bad = compare_dlpoly(text, spec, cutoff, nr)
-      else:
-        bad = compare_gulp(text, spec, cutoff, nr)
+      bad = cmp(text, spec, cutoff, nr)
+      if not bad and tab is not None:
+        # the same object written again
+        out2 = io.StringIO()
+        try:
+          tab.write(out2)
+          bad = ["[second write of the same object] " + b for b in cmp(out2.getvalue(), spec, cutoff, nr)]
+        except Exception as e:  # noqa
+          bad = ["[second write of the same object] writer raised %s: %s" % (type(e).__name__, e)]
     rec = dict(kind="pair_api", target=target, nr=nr, npots=npots, derivs=list(derivs), labels=labels,
                cutoff=cutoff, route=route, h=h, functions=what, mismatches=bad[:10])
     last = (bool(bad), ("[%s] " % what) + ("; ".join(bad[:4]) or "output agrees with the specification at cutoff=%r" % cutoff), rec)
